@@ -65,6 +65,16 @@ def has(e, pred):
 @st.composite
 def cases(draw, tier):
     e = draw(exprs.filter(lambda x: "leaf" not in x)) if draw(st.integers(0, 9)) else draw(exprs)
+    if draw(st.integers(0, 4)) == 0:
+        # a '+' / '-' node whose two operands are DIFFERENT observables carrying the same name (SigmaZ and SigmaZ(absolute=True), two SWAP
+        # regions), optionally under equal coefficients, attached to the drawn expression
+        a_, b_ = draw(st.sampled_from([("SigmaZ", "SigmaZabs"), ("SigmaZabs", "SigmaZ"), ("SigmaX", "SigmaXabs"), ("SWAP0", "SWAP01"), ("SWAP01", "SWAP0")]))
+        la, lb = {"leaf": a_}, {"leaf": b_}
+        if draw(st.booleans()):
+            co = draw(num)
+            la, lb = {"op": "*", "l": co, "r": la}, {"op": "*", "l": co, "r": lb}
+        pair = {"op": draw(st.sampled_from(["+", "+", "-"])), "l": la, "r": lb}
+        e = pair if draw(st.booleans()) else {"op": draw(st.sampled_from(["+", "-"])), "l": e, "r": pair}
     return {"expr": e, "type": draw(st.sampled_from(gen.TYPES)), "n": draw(st.integers(2, 4)), "seed": draw(st.integers(0, 2 ** 31 - 1)),
             "batch": draw(st.lists(st.integers(0, 15), min_size=2, max_size=6)), "long_batch": draw(st.integers(0, 3)) == 0}
 
